@@ -41,8 +41,10 @@ def ids_of(project, model, sandbox=False, with_bid=True, src_by_name=False):
                 continue
             for step in (pkg.getCheckoutStep(), pkg.getBuildStep(), pkg.getPackageStep()):
                 if step.isValid():
+                    deps = [a.getVariantId().hex() for a in step.getArguments() if a.isValid()] + \
+                           [t.getStep().getVariantId().hex() for t in step.getTools().values()]
                     out["%s|%s" % ("/".join(stack), step.getLabel())] = [step.getVariantId().hex(),
-                                                                          bids.of(step).hex() if bids else None]
+                                                                          bids.of(step).hex() if bids else None, deps]
         return out
 
 class BuildIds:
@@ -213,11 +215,41 @@ def diff_ids(a, b, col=None):
     out = []
     for k in sorted(set(a) | set(b)):
         va, vb = a.get(k), b.get(k)
+        va, vb = va and va[:2], vb and vb[:2]
         if col is not None and va and vb:
             va, vb = va[col], vb[col]
         if va != vb:
             out.append((k, va, vb))
     return out
+
+def interning_shape(a, b):
+    """True if every difference sits in a sub-tree whose parent package is unchanged and does not consume it:
+    packages with identical results are merged (Recipe.__corePackagesById) and the merged package carries the
+    dependency list of whoever was visited first - the listed known finding"""
+    d = diff_ids(a, b)
+    if not d:
+        return False
+    for k, va, vb in d:
+        stack = k.split("|")[0].split("/")
+        ok = False
+        for n in range(len(stack) - 1, 0, -1):
+            anc = "/".join(stack[:n])
+            same = all((a.get("%s|%s" % (anc, kind)) or [None])[:2] == (b.get("%s|%s" % (anc, kind)) or [None])[:2]
+                       for kind in ("src", "build", "dist")) and any(("%s|%s" % (anc, kind)) in a for kind in ("src", "build", "dist"))
+            if not same:
+                continue
+            child = "/".join(stack[:n + 1])
+            child_vids = {x[0] for x in (a.get(child + "|dist"), b.get(child + "|dist")) if x}
+            used = set()
+            for kind in ("src", "build", "dist"):
+                for x in (a.get("%s|%s" % (anc, kind)), b.get("%s|%s" % (anc, kind))):
+                    if x: used |= set(x[2])
+            if not (child_vids & used):
+                ok = True
+                break
+        if not ok:
+            return False
+    return True
 
 def run_case(ctx, case):
     model = case["model"]
@@ -244,11 +276,16 @@ def run_case(ctx, case):
             ctx.label("project-rejected")
             return
         def same(what, got, sb, cols=None):
-            if got is None:
+            if got is None and ref[sb] is not None:
                 ctx.fail("transformed-project-rejected", "%s: rejected although the original parses" % what, case)
+            if ref[sb] is None:
+                if got is not None:
+                    ctx.fail("transformed-project-accepted", "%s: accepted although the original is rejected" % what, case)
+                return
             d = diff_ids(ref[sb], got, cols)
             if d:
-                ctx.fail("ids-changed:" + what.split(":")[0].split(" of ")[0], "%s (sandbox=%s) changed ids: %r" % (what, sb, d[:3]), case)
+                ctx.fail("ids-changed:" + what.split(":")[0].split(" of ")[0], "%s (sandbox=%s) changed ids: %r" % (what, sb, d[:3]),
+                         dict(case, interning_shape=interning_shape(ref[sb], got)))
         # T1-T3 location, creation order, timestamps
         B = os.path.join(base, "somewhere", "much", "deeper", "b")
         os.makedirs(os.path.dirname(B))
@@ -283,7 +320,9 @@ def run_case(ctx, case):
             labels.add("irrelevant:" + what.split(" of ")[0])
         # T8 sandbox on/off
         fp = fp_recipes(model)
-        if ref[True] is not None:
+        if "is-sandbox-enabled" in json.dumps(model):
+            labels.add("queries-sandbox-state")
+        elif ref[True] is not None:
             from_model = {r["name"]: r for r in model["recipes"]}
             sens = set()
             # closure: a stack is sensitive if any package on or below it is fingerprinted -> conservative: whole
@@ -410,4 +449,7 @@ def replay(ctx, case):
     else:
         run_case(ctx, case)
 
-FINDINGS = {}
+def _f_interning(sig, case, detail):
+    """identical packages are merged; the merged package shows the dependencies of the first visitor"""
+    return sig.startswith("ids-changed:extra-roots") and bool(case.get("interning_shape"))
+FINDINGS = {"C03-merged-package-keeps-first-visitors-subtree": _f_interning}
